@@ -322,6 +322,8 @@ var verifC07TwoSpec = []struct {
 	{"select distinct id, k, m, count(*) over (partition by k) from t order by k, m", false, true, false, true},
 	// the same with duplicate rows to merge: only k is selected (checked separately below)
 	{"select distinct k, count(*) over (partition by k) from t order by k", false, true, false, true},
+	// WITH TIES: exactly the rows whose key ties with the first one (an integer ties with the equal float)
+	{"select id, k, m from t order by k limit 1 with ties", false, true, false, true},
 }
 
 func VerifC07Setup2() {
@@ -331,8 +333,8 @@ func VerifC07Setup2() {
 }
 
 // ORDER BY with two keys, every combination of directions and NULL positions from a menu, over
-// n <= 3 rows (thorough 4) whose keys are NULL or any int64 (the first key from a small range, so
-// that ties on it are explored): the output is a permutation in which no row precedes one that
+// n <= 3 rows (thorough 4) whose keys are NULL or any int64 (the first key from a small range, as an
+// integer or as the equal float, so that ties on it - also across the two number types - are explored): the output is a permutation in which no row precedes one that
 // sorts strictly before it lexicographically.
 func VerifC07TwoKeys() {
 	tx := verifNewTx()
@@ -350,10 +352,16 @@ func VerifC07TwoKeys() {
 	for i := 0; i < n; i++ {
 		kn[i] = verifBool("k.null")
 		kv[i] = int64(verifChoice("k", kvals))
-		if qi != 5 {
-			mn[i], mv[i] = verifBool("m.null"), verifInt64("m")
+		if qi != 5 && qi != 6 {
+			mv[i] = verifInt64("m")
+			if i < 2 {
+				mn[i] = verifBool("m.null")
+			}
 		}
 		var k, m value.Primary = value.NewInteger(kv[i]), value.NewInteger(mv[i])
+		if (qi < 2 || qi == 6) && i < 2 && verifBool("k.float") {
+			k = value.NewFloat(float64(kv[i])) // the same number as a float: sorts and ties like the integer
+		}
 		if kn[i] {
 			k = value.NewNull()
 		}
@@ -394,6 +402,32 @@ func VerifC07TwoKeys() {
 				}
 			}
 			verifAssert("every key value appears", found)
+		}
+		verifObserve("rows", int64(view.RecordLen()))
+		verifReach("end")
+		return
+	}
+	if qi == 6 {
+		anyNull := false
+		min := int64(1 << 62)
+		for i := 0; i < n; i++ {
+			if kn[i] {
+				anyNull = true
+			} else if kv[i] < min {
+				min = kv[i]
+			}
+		}
+		tied := func(i int) bool { return (anyNull && kn[i]) || (!anyNull && kv[i] == min) }
+		want := 0
+		for i := 0; i < n; i++ {
+			if tied(i) {
+				want++
+			}
+		}
+		verifAssert("WITH TIES keeps exactly the rows tied with the first", view.RecordLen() == want)
+		for r := 0; r < view.RecordLen(); r++ {
+			id := int(view.RecordSet[r][0][0].(*value.Integer).Raw())
+			verifAssert("a kept row ties with the first", id >= 0 && id < n && tied(id))
 		}
 		verifObserve("rows", int64(view.RecordLen()))
 		verifReach("end")
